@@ -1,6 +1,7 @@
 import Orca.Lemmas.SemSim
 import Orca.Lemmas.SemBranch
 import Orca.Lemmas.SpecialFlat
+import Orca.Lemmas.StackSpec
 /-!
 # C18 — block entry probes fire on every entry into the block
 
@@ -75,3 +76,15 @@ theorem c18_flat_block_entry_placed (f : Orca.Lower.Func) (pre rest : List Orca.
   Orca.Lower.blockEntry_placed f pre rest sel pr hbody hrne hsp hentry hexit hpre hrest hsel hk n n2 hd1 hd2
 
 end Orca.Sem
+
+namespace Orca.Lower
+
+/-- **flat code, every plan.** Not only a single probe (`…_placed` above): for any number of block-entry probes, together with any other
+    block-level probes and `before` / `after` code, on any constructs nested in any way, the encoded function is what the stack machine
+    `specRun` defines (Lemmas/StackSpec.lean), which puts block-entry code behind the opener (`specStep`: the opener's final `after` list is `after ++ blockEntry`; for an `else`, behind the `else`). -/
+theorem c18_flat_every_plan (f : Func) (hsp : f.hasSpecial = true) (hentry : f.entry = []) (hexit : f.exit = [])
+    (hp : ∀ x ∈ f.body, Plain x) (out : List Tok) (hs : specRun (f.body.length - 1) 0 [{}] f.body = some out) :
+    lower f = (out, f.added) :=
+  lower_eq_spec f hsp hentry hexit hp out hs
+
+end Orca.Lower
